@@ -1,4 +1,441 @@
 package main
 
-func cmdCheck(args []string)    {}
+import (
+	"encoding/json"
+	"flag"
+	"fmt"
+	"os"
+	"path/filepath"
+	"sort"
+	"strconv"
+	"strings"
+	"time"
+)
+
+type knownFinding struct {
+	Property   string
+	Obligation string
+	Text       string
+	Fixed      bool
+	Commit     string
+}
+
+func loadKnownFindings(path string) []knownFinding {
+	b, err := os.ReadFile(path)
+	if err != nil {
+		return nil
+	}
+	var out []knownFinding
+	for _, l := range strings.Split(string(b), "\n") {
+		l = strings.TrimSpace(l)
+		if l == "" || strings.HasPrefix(l, "#") {
+			continue
+		}
+		var kf knownFinding
+		switch {
+		case strings.HasPrefix(l, "finding:"):
+			l = strings.TrimSpace(l[len("finding:"):])
+		case strings.HasPrefix(l, "fixed:"):
+			kf.Fixed = true
+			l = strings.TrimSpace(l[len("fixed:"):])
+		default:
+			continue
+		}
+		f := strings.Fields(l)
+		rest := []string{}
+		for _, w := range f {
+			switch {
+			case strings.HasPrefix(w, "property=") && kf.Property == "":
+				kf.Property = w[len("property="):]
+			case strings.HasPrefix(w, "obligation=") && kf.Obligation == "":
+				kf.Obligation = w[len("obligation="):]
+			case strings.HasPrefix(w, "commit=") && kf.Commit == "":
+				kf.Commit = w[len("commit="):]
+			default:
+				rest = append(rest, w)
+			}
+		}
+		kf.Text = strings.Join(rest, " ")
+		out = append(out, kf)
+	}
+	return out
+}
+
+type sampleObl struct {
+	Name   string `json:"name"`
+	Kind   string `json:"kind"`
+	Src    string `json:"src"`
+	Pos    string `json:"pos"`
+	Status string `json:"status"`
+	Solver string `json:"solver"`
+	Ms     int64  `json:"ms"`
+	Hyps   int    `json:"hypotheses"`
+	Size   int    `json:"smt_bytes"`
+}
+
+type funcEvidence struct {
+	Name        string   `json:"name"`
+	Pos         string   `json:"pos"`
+	Status      string   `json:"status"` // proved | failed | missing
+	Obligations int      `json:"obligations"`
+	Discharged  int      `json:"discharged"`
+	Passes      int      `json:"passes"`
+	OutOfSubset []string `json:"out_of_subset,omitempty"`
+	Uncontract  []string `json:"uncontracted_calls,omitempty"`
+	Inlined     []string `json:"inlined,omitempty"`
+	ModuloReal  bool     `json:"modulo_real,omitempty"`
+}
+
+func oblOK(o *Obligation) bool {
+	if o.ExpectFail {
+		return o.Status == "sat"
+	}
+	return o.Status == "unsat"
+}
+
+// unitsFor returns the units (functions under contract, lemmas) serving property id.
+func unitsFor(prog *Program, id string, tier string) []*Unit {
+	var units []*Unit
+	serves := func(ps []string) bool {
+		for _, p := range ps {
+			if p == id {
+				return true
+			}
+		}
+		return false
+	}
+	for _, k := range prog.SortedContractKeys() {
+		ct := prog.Contracts[k]
+		if ct.Trusted || strings.HasPrefix(ct.FuncName, "iface ") || strings.HasPrefix(ct.FuncName, "field ") {
+			continue
+		}
+		if !serves(ct.Props) {
+			continue
+		}
+		if ct.Thorough && tier != "thorough" {
+			continue
+		}
+		units = append(units, prog.VerifyContract(ct, tier))
+	}
+	for _, l := range prog.Lemmas {
+		if serves(l.Props) {
+			units = append(units, prog.VerifyLemma(l, tier))
+		}
+	}
+	return units
+}
+
+func cmdCheck(args []string) {
+	fs := flag.NewFlagSet("check", flag.ExitOnError)
+	prop := fs.String("property", "", "property id")
+	tier := fs.String("tier", "quick", "quick|thorough")
+	replayFile := fs.String("replay", "", "re-run the replay recorded in this file")
+	fs.Parse(args)
+	if *replayFile != "" {
+		os.Exit(replayFromFile(*replayFile))
+	}
+	if *prop == "" {
+		fmt.Println("check: --property required")
+		os.Exit(2)
+	}
+	id := *prop
+	seed := 0
+	if s := os.Getenv("VERIF_SEED"); s != "" {
+		seed, _ = strconv.Atoi(s)
+	}
+	t0 := time.Now()
+	prog, err := LoadProgram(repoDir(), allPatterns(), nil, filepath.Join(verifDir, "govc", "lib"))
+	if err != nil {
+		// the repository does not type-check or a contract file does not parse: not a verdict
+		fmt.Println("govc: cannot load:", err)
+		os.Exit(2)
+	}
+	loadS := time.Since(t0).Seconds()
+	units := unitsFor(prog, id, *tier)
+	if len(units) == 0 {
+		fmt.Printf("govc: no function under contract serves %s\n", id)
+		os.Exit(2)
+	}
+	scratch, _ := os.MkdirTemp("", "govc-"+id+"-")
+	defer os.RemoveAll(scratch)
+	var all []*Obligation
+	specErrs := 0
+	for _, u := range units {
+		u.Ctx.prepare()
+		all = append(all, u.Obls...)
+		for _, e := range u.Errors {
+			fmt.Printf("govc: contract error in %s: %s\n", u.Name, e)
+			specErrs++
+		}
+	}
+	if specErrs > 0 {
+		fmt.Println("govc: contracts do not match the code (names/types); no verdict")
+		os.Exit(2)
+	}
+	quickCap, fullCap := 3, 10
+	if *tier == "thorough" {
+		quickCap, fullCap = 5, 60
+	}
+	known := loadKnownFindings(filepath.Join(verifDir, "KNOWN_FINDINGS.txt"))
+	for _, u := range units {
+		u.Ctx.noAssume = map[string]bool{}
+		for _, k := range known {
+			if !k.Fixed {
+				u.Ctx.noAssume[k.Obligation] = true
+			}
+		}
+	}
+	t1 := time.Now()
+	SolveAll(all, scratch, 14, quickCap, fullCap, *tier == "thorough")
+	solveS := time.Since(t1).Seconds()
+
+	isKnown := func(name string) *knownFinding {
+		for i := range known {
+			k := &known[i]
+			if !k.Fixed && k.Property == id && k.Obligation == name {
+				return k
+			}
+		}
+		return nil
+	}
+
+	os.MkdirAll(filepath.Join(verifDir, "evidence", "replays"), 0o755)
+	var violations []string
+	engineErr := false
+	discharged, total, knownCount := 0, 0, 0
+	bySolver := map[string]map[string]interface{}{}
+	var samples []sampleObl
+	var funcs []funcEvidence
+	trusted := map[string]bool{}
+	uncontracted := map[string]bool{}
+	moduloReal := 0
+	var knownLines []string
+	for _, u := range units {
+		fe := funcEvidence{Name: u.Name, Pos: u.Pos, Passes: u.Passes, Status: "proved", OutOfSubset: u.Ctx.outOfSubset}
+		for k := range u.Ctx.trustedUsed {
+			trusted[k] = true
+		}
+		for k := range u.Ctx.uncontracted {
+			uncontracted[k] = true
+			fe.Uncontract = append(fe.Uncontract, k)
+		}
+		for k := range u.Ctx.inlined {
+			fe.Inlined = append(fe.Inlined, k)
+		}
+		sort.Strings(fe.Uncontract)
+		sort.Strings(fe.Inlined)
+		fe.ModuloReal = u.Ctx.usesReal
+		if u.Missing {
+			fe.Status = "missing"
+		}
+		for _, o := range u.Obls {
+			if kf := isKnown(o.Name); kf != nil {
+				knownCount++
+				if oblOK(o) {
+					// a recorded finding that no longer fails: report, but it is not a violation
+					fmt.Printf("NOTE: known finding no longer reproduces: property=%s obligation=%s\n", id, o.Name)
+				} else {
+					line := fmt.Sprintf("KNOWN-FINDING: property=%s %s (obligation %s)", id, kf.Text, o.Name)
+					knownLines = append(knownLines, line)
+					fmt.Println(line)
+				}
+				continue
+			}
+			total++
+			fe.Obligations++
+			if o.Tags["real"] || (u.Ctx.usesReal && strings.Contains(o.Goal.S+o.Guard.S, "realval")) {
+				moduloReal++
+			}
+			if o.Solver != "" {
+				m := bySolver[o.Solver]
+				if m == nil {
+					m = map[string]interface{}{"count": 0, "ms": int64(0)}
+					bySolver[o.Solver] = m
+				}
+				m["count"] = m["count"].(int) + 1
+				m["ms"] = m["ms"].(int64) + o.Ms
+			}
+			if len(samples) < 6 || (!oblOK(o) && len(samples) < 12) {
+				samples = append(samples, sampleObl{o.Name, o.Kind, o.Src, o.Pos, o.Status, o.Solver, o.Ms, o.NHyp, o.Size})
+			}
+			if oblOK(o) {
+				discharged++
+				fe.Discharged++
+				continue
+			}
+			fe.Status = "failed"
+			if o.Status == "error" {
+				engineErr = true
+				fmt.Printf("govc: engine error on %s: %s\n", o.Name, firstLines(o.Output, 3))
+				continue
+			}
+			rp := reportViolation(prog, id, o, u)
+			violations = append(violations, rp)
+		}
+		funcs = append(funcs, fe)
+	}
+	wall := time.Since(t0).Seconds()
+
+	var trustedList, uncList []string
+	for k := range trusted {
+		trustedList = append(trustedList, "assumed contract: "+k)
+	}
+	for k := range uncontracted {
+		uncList = append(uncList, k)
+	}
+	sort.Strings(trustedList)
+	sort.Strings(uncList)
+	trustedBase := append([]string{
+		"govc translation of go/ssa to SMT (this engine), see DESIGN.md §2",
+		"SMT solvers z3 5.1.0 (z3-new), z3 4.8.12, cvc5 1.0",
+		"built-in models of math/big (Int exact; Float/Rat as exact reals: A-REAL), sync (no blocking), encoding/binary",
+	}, trustedList...)
+	assumptions := []string{
+		"termination is not proved (partial correctness)",
+		"a panic ends the path unless the function is marked nopanic",
+		"slice capacity aliasing is not modelled: append always yields a fresh backing array (A-APPEND)",
+		"mutex blocking and goroutine interleavings are not modelled",
+		"machine integers are modelled exactly with wrap-around; *big.Int as mathematical integers",
+	}
+	if moduloReal > 0 {
+		assumptions = append(assumptions, fmt.Sprintf("%d obligation(s) hold modulo A-REAL: big.Float/big.Rat/float64 arithmetic treated as exact real arithmetic", moduloReal))
+	}
+	for _, u := range uncList {
+		assumptions = append(assumptions, "uncontracted call (havocs everything): "+u)
+	}
+	ev := map[string]interface{}{
+		"property_id": id,
+		"tier":        *tier,
+		"seed":        seed,
+		"level":       "proof",
+		"coverage": map[string]interface{}{
+			"obligations":              total,
+			"discharged":               discharged,
+			"checker_cmd":              fmt.Sprintf("/verif/check %s %s", id, *tier),
+			"trusted_base":             trustedBase,
+			"functions_under_contract": funcs,
+			"by_solver":                bySolver,
+			"samples":                  samples,
+			"modulo_real":              moduloReal,
+			"known_finding_obligations": knownCount,
+			"known_findings":           knownLines,
+			"uncovered":                uncoveredText(id),
+			"load_s":                   loadS,
+			"solve_s":                  solveS,
+			"explanation":              "obligations = proof goals generated from /repo's current source for the functions under contract that serve this property (postconditions, loop invariants, call-site preconditions, frame conditions, panic sites, vacuity covers); discharged = decided by an SMT solver (unsat, or sat for cover probes). Obligations recorded in KNOWN_FINDINGS.txt are counted separately.",
+		},
+		"assumptions": assumptions,
+		"wall_s":      wall,
+		"violations":  len(violations),
+	}
+	b, _ := json.MarshalIndent(ev, "", " ")
+	os.WriteFile(filepath.Join(verifDir, "evidence", id+".json"), b, 0o644)
+
+	fmt.Printf("govc: property %s tier %s: %d units, %d/%d obligations discharged, %d known finding(s), %d violation(s), %.1fs (load %.1fs, solve %.1fs)\n",
+		id, *tier, len(units), discharged, total, len(knownLines), len(violations), wall, loadS, solveS)
+	if engineErr {
+		os.Exit(2)
+	}
+	if len(violations) > 0 {
+		os.Exit(1)
+	}
+	os.Exit(0)
+}
+
+func firstLines(s string, n int) string {
+	ls := strings.Split(strings.TrimSpace(s), "\n")
+	if len(ls) > n {
+		ls = ls[:n]
+	}
+	return strings.Join(ls, " | ")
+}
+
+// reportViolation writes the replay file, tries to replay the model on the real code and prints the VIOLATION line.
+func reportViolation(prog *Program, id string, o *Obligation, u *Unit) string {
+	path := filepath.Join(verifDir, "evidence", "replays", id+"-"+sanitize(o.Name)+".json")
+	reason := ""
+	switch o.Status {
+	case "sat":
+		reason = "solver found a counterexample to the obligation"
+	case "unknown", "timeout":
+		reason = "solver-undecided: the obligation discharged on the unchanged tree and no longer does"
+	}
+	if o.ExpectFail {
+		reason = "vacuity: no normal return of the function is reachable under its preconditions any more"
+	}
+	if o.Kind == "exists" {
+		reason = "function under contract no longer exists (or has no body)"
+	}
+	rec := map[string]interface{}{
+		"property":   id,
+		"obligation": o.Name,
+		"kind":       o.Kind,
+		"function":   o.Func,
+		"source":     o.Src,
+		"position":   o.Pos,
+		"status":     o.Status,
+		"solver":     o.Solver,
+		"reason":     reason,
+		"solver_output": firstLines(o.Output, 40),
+		"model":      o.Model,
+	}
+	confirmed := false
+	if o.Status == "sat" && !o.ExpectFail {
+		rr := tryReplay(prog, o, u)
+		rec["replay"] = rr
+		confirmed = rr.Confirmed
+	}
+	b, _ := json.MarshalIndent(rec, "", " ")
+	os.WriteFile(path, b, 0o644)
+	suffix := ""
+	if !confirmed {
+		suffix = " no-failing-input-found"
+	}
+	fmt.Printf("  failed obligation: %s  [%s]  %s\n    %s\n", o.Name, o.Pos, o.Status, o.Src)
+	fmt.Printf("VIOLATION property=%s replay=%s%s\n", id, path, suffix)
+	return path
+}
+
+func replayFromFile(path string) int {
+	b, err := os.ReadFile(path)
+	if err != nil {
+		fmt.Println(err)
+		return 2
+	}
+	var rec map[string]interface{}
+	if err := json.Unmarshal(b, &rec); err != nil {
+		fmt.Println(err)
+		return 2
+	}
+	fmt.Printf("obligation: %v\nsource: %v\nposition: %v\nstatus: %v\nreason: %v\n", rec["obligation"], rec["source"], rec["position"], rec["status"], rec["reason"])
+	if rp, ok := rec["replay"].(map[string]interface{}); ok {
+		if src, ok := rp["test_source"].(string); ok && src != "" {
+			pkgDir, _ := rp["package_dir"].(string)
+			out, failed := runReplayTest(pkgDir, src, rp["test_name"].(string))
+			fmt.Println(out)
+			if failed {
+				fmt.Println("replay: the real code violates the obligation on this input")
+				return 1
+			}
+			fmt.Println("replay: not reproduced on the current tree")
+			return 0
+		}
+	}
+	fmt.Println("no replayable input recorded (no-failing-input-found); solver output:")
+	fmt.Println(rec["solver_output"])
+	return 1
+}
+
+func uncoveredText(id string) string {
+	b, err := os.ReadFile(filepath.Join(verifDir, "govc", "uncovered.json"))
+	if err != nil {
+		return ""
+	}
+	var m map[string]string
+	if json.Unmarshal(b, &m) != nil {
+		return ""
+	}
+	return m[id]
+}
+
 func cmdSelftest(args []string) {}
